@@ -344,6 +344,35 @@ def fam_late_packet(rng, n, tag="late"):
         out.append(s)
     return out
 
+def fam_death_before_input(rng, n, tag="dbi"):
+    """a peer completes the handshake (it polls) but never simulates a frame and then dies: the survivors have
+    nothing of it (last frame NULL) and have predicted up to a window of frames; after the timeout - or an
+    explicit disconnect_player - those frames must be re-simulated as (default, Disconnected)"""
+    out = []
+    for i in range(n):
+        n_peers = rng.choice([2, 2, 3])
+        w = rng.choice([1, 2, 4, 8])
+        lat = rng.choice([5, 20, 45])
+        to = rng.choice([600, 1000, 2000])
+        s = Scen("%s_%d" % (tag, i), players=n_peers, window=w, lat=lat, seed=rng.randrange(1 << 30),
+                 sparse=rng.randrange(2), pred=rng.choice(["repeat", "default"]), inputrun=rng.choice([1, 3]),
+                 timeout=to, notify=rng.choice([200, 500]))
+        _topology(rng, s, n_peers, n_peers, delays=(0, 0, 1))
+        victim = rng.randrange(1, n_peers + 1)
+        surv = [p for p in range(1, n_peers + 1) if p != victim]
+        t_die = 12 * lat + rng.randrange(300, 900)
+        end = t_die + to + 2500
+        for p in surv:
+            s.ticks(p, rng.randrange(0, 16), end, 16)
+        s.ticks(victim, rng.randrange(0, 16), t_die, 16, kind="poll")
+        s.at(t_die, "kill", victim)
+        if rng.random() < 0.4:
+            s.at(t_die + rng.choice([50, 200]), "disc", surv[0], victim - 1)
+        for p in surv:
+            s.at(end - 10, "progress", p, 15)
+        out.append(s)
+    return out
+
 def fam_death_long(rng, n, tag="dlong"):
     """2-3 peers with desync detection on; one dies cleanly and is dropped by timeout; the survivors keep
     playing for many seconds after the dead peer's endpoint has gone from Disconnected to Shutdown (5 s):
